@@ -6,27 +6,121 @@ from harness.props import engine_common as ec
 ID = "C14"
 PROP_FILE = "Props/C14.v"
 THEOREMS = ["C14_message_touches_only_its_run", "C14_close_run_frame", "C14_open_run_frame", "C14_duplicate_open_refused",
-            "C14_runs_well_formed_separately"]
-COQ_IMPORTS = dc.COQ_IMPORTS
-RULE = dc.RULE
-cases = dc.cases
-coq_term = dc.coq_term
+            "C14_runs_well_formed_separately", "C14_set_run_key_wrapper", "C14_set_run_key_nested"]
+COQ_IMPORTS = dc.COQ_IMPORTS + "\nFrom BV Require Import Pure.RunKey."
+RULE = dc.RULE + (" || set_run_key_wrapper / set_run_key_decorator: the REAL functions over all message lists of length <= 3 and random "
+                  "longer ones with run keys from {None, 0, '', 'a', 1}, one wrapper and two nested, every key pair")
+
+KEYS = [None, 0, "", "a", 1]          # 0 and '' are falsy but perfectly valid run keys
+
+
+def key_code(k):
+    if k is None:
+        return None
+    if isinstance(k, bool):
+        return 9
+    return {(int, 0): 0, (str, ""): 1, (str, "a"): 2, (int, 1): 3}.get((type(k), k), 8)
+
+
+def runkey_cases(rng, tier):
+    out = []
+    wk = KEYS[1:]
+    lists = [[]] + [[a] for a in KEYS] + [[a, b] for a in KEYS for b in KEYS]
+    if tier == "thorough":
+        lists += [[a, b, c] for a in KEYS for b in KEYS for c in KEYS]
+    lists += [[rng.choice(KEYS) for _ in range(rng.randint(3, 9))] for _ in range(40 if tier == "quick" else 400)]
+    for i, msgs in enumerate(lists):
+        for via in ("wrapper", "decorator"):
+            for ko in wk:
+                if i % 3 == 0 or tier == "thorough" or len(msgs) > 2:
+                    out.append({"kind": "runkey", "keys": [ko], "via": via, "msgs": msgs, "tag": "runkey 1 %s" % via})
+                for ki in wk:
+                    if tier == "thorough" or (i + len(str(ko)) + len(str(ki))) % 2 == 0 or len(msgs) > 2:
+                        out.append({"kind": "runkey", "keys": [ko, ki], "via": via, "msgs": msgs, "tag": "runkey 2 %s" % via})
+    return out
+
+
+def cases(rng, tier):
+    return dc.cases(rng, tier) + runkey_cases(rng, tier)
+
+
+def run_runkey(case):
+    from bluesky.preprocessors import set_run_key_decorator, set_run_key_wrapper
+    from bluesky.utils import Msg
+
+    def plan():
+        for i, k in enumerate(case["msgs"]):
+            yield Msg("null", None, i, run=k)
+    if case["via"] == "wrapper":
+        g = plan()
+        for k in reversed(case["keys"]):        # keys are listed outermost first
+            g = set_run_key_wrapper(g, k)
+    else:
+        f = plan
+        for k in reversed(case["keys"]):
+            f = set_run_key_decorator(k)(f)
+        g = f()
+    got = []
+    try:
+        m = g.send(None)
+        while True:
+            got.append([m.command, list(m.args), key_code(m.run), repr(m.run)])
+            m = g.send(None)
+    except StopIteration:
+        pass
+    return {"msgs": got}
+
+
+def impl_batch(cases_):
+    plain = [c for c in cases_ if c.get("kind") != "runkey"]
+    obs = dict(zip((dc.case_key(c) for c in plain), ec.impl_batch(plain)))
+    return [run_runkey(c) if c.get("kind") == "runkey" else obs[dc.case_key(c)] for c in cases_]
+
+
+def coq_term(case, obs):
+    if case.get("kind") != "runkey":
+        return dc.coq_term(case, obs)
+
+    def ok(c):
+        return "None" if c is None else "(Some %d)" % c
+    plan = "[" + "; ".join("(%d, %s)" % (i, ok(key_code(k))) for i, k in enumerate(case["msgs"])) + "]"
+    exp = "[" + "; ".join(ok(m[2]) for m in obs["msgs"]) + "]"
+    ks = "[" + "; ".join(str(key_code(k)) for k in case["keys"]) + "]"
+    return "check_runkeys %s %s %s" % (ks, plan, exp)
 
 
 def oracle(case, obs):
+    if case.get("kind") == "runkey":
+        # every message arrives, in order, unchanged but for the run key: a key that was set (0 and '' included)
+        # is kept, an unset one becomes the key of the innermost wrapper
+        got = obs["msgs"]
+        if [m[1] for m in got] != [[i] for i in range(len(case["msgs"]))] or any(m[0] != "null" for m in got):
+            return "messages lost, added, reordered or altered: %r" % ([m[:2] for m in got],)
+        inner = case["keys"][-1]
+        for i, (k, m) in enumerate(zip(case["msgs"], got)):
+            want = k if k is not None else inner
+            if m[2] != key_code(want) or m[3] != repr(want):
+                return "message %d had run key %r, wrappers %r: arrives with run key %s, expected %r" % (i, k, case["keys"], m[3], want)
+        return None
     e = dc.driver_error(obs)
     if e:
         return e
     res = dc.mon(case, obs)
     # every message applied to the run with its key; duplicate open refused without effect;
     # each run's documents satisfy the lifecycle and numbering guarantees on their own
-    return dc.docs_monitor.first(res, ("keys", "grammar", "number", "intr"))
+    return dc.docs_monitor.first(res, ("keys", "grammar", "number", "retake", "intr"))
 
 
 def finding(case, obs):
     return None
 
 
+def describe(case):
+    return "runkey" if case.get("kind") == "runkey" else ec.describe(case)
+
+
 def nontrivial(case, obs):
+    if case.get("kind") == "runkey":
+        return any(k is not None for k in case["msgs"]) and len(case["keys"]) == 2
     keys = {o[2]["run"] for o in obs.get("obs", []) if o[0] == "msg" and o[2]["cmd"] == "open_run"}
     return len(keys) > 1
